@@ -23,7 +23,8 @@ RULE = ("state points: golden ids pinned from signac's docs/tests; bounded-exhau
 TRUSTED = [
     "float.__repr__ modelled by an oracle table (Section variable frepr); validated per entry: ASCII, contains . or e",
     "hashlib.md5 = RFC 1321 (Coq MD5 recomputes every id)",
-    "char-level injectivity of the string escape is not proved (token-level unique readability is)",
+    "C01_canon_injective assumes of float.__repr__: number characters only, head digit or '-', injective, never an "
+    "integer lexeme (asserted for every table entry by harness/common.py:coq_ftab)",
 ]
 ASSUMPTIONS = ["state point strings contain no lone surrogates"]
 
